@@ -35,6 +35,9 @@ def run(ctx):
     from props import C01, C11
     import premises
     premises.forest(ctx)
+    # "no stored item is ever unreachable by search" needs a forest with at least one tree: C15's tree-count clauses
+    import forest_rules as fr
+    fr.r_tree_count(ctx)
     # premise C11 ("each with its true distance"): its structural clauses are re-checked as well
     C11.structural(ctx)
     # a metric change is one of the histories: the re-encoded leaf (header of the new metric over the entry's own vector at
